@@ -200,6 +200,32 @@ def h_roundtrip(sx, cfg):
             sx.check(f"valid{idx}", sx.eq(sx.truth(g.valid[idx]), sx.truth(valid[idx])))
 
 
+def h_far(sx, cfg):
+    """concrete binary64 geometry far from the origin relative to the cell size (the vertex coordinates carry rounding of order
+    eps*|x|), symbolic values: binary and XML files written by the library are read back onto the same mesh"""
+    df = lib.load()
+    n = tuple(cfg["n"])
+    nv = cfg["nvdim"]
+    p1 = [float(x) for x in cfg["pmin"]]
+    p2 = [p1[a] + n[a] * float(cfg["cell"][a]) for a in range(3)]
+    mesh = df.Mesh(p1=p1, p2=p2, n=n)
+    arr = sx.real_array("v", (*n, nv))
+    f = df.Field(mesh, nvdim=nv, value=arr)
+    with _env(sx) as prefix:
+        fname = prefix + "far.vtk"
+        try:
+            f.to_file(fname, representation=cfg["rep"])
+            g = df.Field.from_file(fname)
+        except Exception as ex:  # noqa: BLE001
+            sx.check("far-roundtrip-accepted", False, exc=f"{type(ex).__name__}: {ex}")
+            return
+    sx.check("far-roundtrip-accepted", True)
+    sx.check("far-n", tuple(int(x) for x in g.mesh.n) == n)
+    sx.check("far-corners", bool(np.all(np.asarray(g.mesh.region.pmin) == np.asarray(mesh.region.pmin))) and bool(np.all(np.asarray(g.mesh.region.pmax) == np.asarray(mesh.region.pmax))))
+    if tuple(np.shape(g.array)) == (*n, nv):
+        sx.check("far-values", sx.eq(g.array, arr, scale=0.0))
+
+
 def h_refuse(sx, cfg):
     df = lib.load()
     m2, _, _ = sym_mesh(sx, (2, 2), flip=False)
@@ -285,6 +311,12 @@ def tasks(tier):
                 if q and (i + len(rep)) % 2 and rep != "bin":
                     continue
                 t.append(dict(harness="h_roundtrip", cfg=dict(n=list(n), nvdim=nv, labels=lab, rep=rep if rep != "bin" or i % 2 else "bin8", subregions=subs.get(n, []) if i % 2 else []), limits=big))
+    far = [dict(n=[4, 3, 2], nvdim=1, pmin=[1e4, 1e4, 1e4], cell=[1e-9, 1e-9, 1e-9], rep="bin"), dict(n=[4, 3, 2], nvdim=3, pmin=[-2e4, 1e4, 3e4], cell=[1e-9, 2e-9, 1e-9], rep="xml"),
+           dict(n=[64, 1, 1], nvdim=1, pmin=[100.0, 0.0, 0.0], cell=[1e-9, 1e-9, 1e-9], rep="bin8"), dict(n=[3, 2, 2], nvdim=2, pmin=[1e9, -1e9, 5e8], cell=[0.1, 0.3, 0.7], rep="bin")]
+    if not q:
+        far += [dict(n=[1000, 1, 1], nvdim=1, pmin=[100.0, 0.0, 0.0], cell=[1e-9, 1e-9, 1e-9], rep="bin"), dict(n=[5, 4, 3], nvdim=1, pmin=[1e6, 2e6, -3e6], cell=[1e-6, 1e-6, 3e-6], rep="xml")]
+    for cfg in far:
+        t.append(dict(harness="h_far", cfg=cfg, limits=big))
     t.append(dict(harness="h_refuse", cfg={}))
     t.append(dict(harness="h_txt_anisotropic", cfg={}))
     for n, nv, pmin, cell in (((3, 2, 2), 1, [0.0, -1e-9, 5e-9], [1e-9, 2e-9, 2.5e-9]), ((2, 3, 1), 3, [-4.0, 0.5, 0.0], [2.0, 0.5, 1e-9]), ((4, 1, 1), 3, [0.0, 0.0, 0.0], [1e-9, 1e-9, 1e-9])):
